@@ -391,9 +391,13 @@ def eval_case(ctx: C.Ctx, case, batch: Batch, kind: str) -> None:
              sample={"la": case["la"], "bbox": case["bbox"], "items": case["items"][:6], "n_items": len(case["items"])},
              branch="gen:" + kind)
     if fl:
-        for f in fl[:3]:
-            ctx.branch("fail:" + f[0])
-        report_failure(ctx, case, fl[0])
+        kinds = []
+        for f in fl:
+            if f[0] not in kinds:
+                kinds.append(f[0])
+                ctx.branch("fail:" + f[0])
+                if len(kinds) <= 6:
+                    report_failure(ctx, case, f)      # one (minimised) replay per KIND of broken invariant
 
 
 # --------------------------------------------------------------------------- float mode and the PDF path
@@ -706,6 +710,87 @@ def run_isspace(ctx: C.Ctx) -> None:
         ctx.disagree("isspace", cps[k], exp[k], got[k] if k < len(got) else "?")
 
 
+# --------------------------------------------------------------------------- large-format pages (Plane overflow list)
+
+def gen_large_format(rng):
+    """Pages whose size and whose glyph sizes span several orders of magnitude (10 .. 6000 units; type from 1/2 to
+    2500 units): mixtures of huge and tiny paragraphs, so that text lines / boxes / groups are filed both in the
+    50-unit grid of `utils.Plane` and - covering more than MAXCELLS = 1024 cells - on its overflow list `_big`, in
+    group_textlines AND group_textboxes (add -> find -> remove -> iterate on the same Plane)."""
+    W = F(rng.choice([10, 200, 612, 1500, 3000, 3000, 4000, 6000]))
+    H = F(rng.choice([10, 300, 792, 1500, 3000, 3000, 4000, 6000]))
+    la = L.gen_la(rng, wild=False)
+    if rng.random() < 0.8:
+        la["boxes_flow"] = L.fs(rng.choice([F(1, 2), F(0), F(-1, 2), F(1), F(-1), F(1, 4)]))
+    if rng.random() < 0.7:
+        la["detect_vertical"] = False
+    items, cid = [], 0
+    sizes = [F(1, 2), F(2), F(10), F(12), F(60), F(300), F(900), F(1700), F(1800), F(2500)]
+    npar = rng.randint(2, 5)
+    for k in range(npar):
+        fit = [z for z in sizes if z <= max(W, H)] or [F(1, 2)]
+        size = rng.choice(fit[-3:]) if (k == 0 and rng.random() < 0.7) else rng.choice(fit)
+        rows, cols = rng.randint(1, 3), rng.randint(1, 4)
+        if size >= 300:
+            rows, cols = rng.randint(1, 2), rng.randint(1, 2)
+        x = F(rng.randint(0, max(1, int(W)))) if rng.random() < 0.8 else F(rng.randint(-200, 200))
+        y = F(rng.randint(0, max(1, int(H))))
+        pitch = size * rng.choice([F(1), F(9, 8), F(5, 4), F(2)])
+        for r in range(rows):
+            for c in range(cols):
+                cid += 1
+                x0, y0 = x + c * size, y - r * pitch
+                items.append(["c", cid, L.fs(x0), L.fs(y0), L.fs(x0 + size), L.fs(y0 + size), rng.choice("abcxyz")])
+    if rng.random() < 0.3:
+        cid += 1
+        items.insert(rng.randrange(len(items) + 1), ["o", cid, "1", "1", "20", "20", "rect"])
+    return {"bbox": ["0", "0", L.fs(W), L.fs(H)], "la": la, "items": items}
+
+
+def plane_cells(o) -> int:
+    import math
+    try:
+        nx = math.floor(F(o.x1) / 50) - math.floor(F(o.x0) / 50) + 1
+        ny = math.floor(F(o.y1) / 50) - math.floor(F(o.y0) / 50) + 1
+    except (OverflowError, ValueError, TypeError):
+        return 0
+    return max(nx, 0) * max(ny, 0)
+
+
+def run_large_format(ctx: C.Ctx, batch: "Batch") -> None:
+    from pdfminer.layout import LTTextBox, LTTextGroup
+    rng = ctx.rng
+    for i in range(ctx.n(60, 600)):
+        if not ctx.time_left():
+            break
+        case = gen_large_format(rng)
+        eval_case(ctx, case, batch, "large-format")
+        page, err = L.run_impl(case)
+        if page is None:
+            continue
+        boxes = [o for o in page if isinstance(o, LTTextBox)]
+        nbig = sum(plane_cells(b) > 1024 for b in boxes)
+        nbig_lines = sum(plane_cells(l) > 1024 for b in boxes for l in b)
+        groups = []
+
+        def walk(g):
+            if isinstance(g, LTTextGroup):
+                groups.append(g)
+                for ch in g:
+                    walk(ch)
+        for g in (page.groups or []):
+            walk(g)
+        ctx.branch("plane:overflow-boxes:%s/boxes:%s" % ("0" if nbig == 0 else "1+", "1" if len(boxes) <= 1 else "2+"))
+        if nbig_lines:
+            ctx.branch("plane:overflow-line-in-group_textlines")
+        if any(plane_cells(g) > 1024 for g in groups):
+            ctx.branch("plane:overflow-group-in-group_textboxes")
+        if nbig and len(boxes) >= 2 and case["la"].get("boxes_flow") is not None:
+            ctx.branch("plane:overflow-box-merged-with-others")
+        if len(batch.lines) >= 100:
+            batch.flush()
+
+
 # --------------------------------------------------------------------------- heap order of group_textboxes
 
 def run_heap(ctx: C.Ctx) -> None:
@@ -806,6 +891,7 @@ def run(ctx: C.Ctx) -> None:
             float_cross_check(ctx, case)
         if len(batch.lines) >= 200:
             batch.flush()
+    run_large_format(ctx, batch)
     run_pdf(ctx, batch)
     run_forms(ctx)
     batch.flush()
